@@ -1,7 +1,7 @@
 """C16 -- recheck percentage is the exact share of bytes in verifying pieces."""
 from props import recheck_common as rc
 
-GEN_FILES = rc.GEN_FILES
+GEN_FILES = rc.GEN_FILES + ["GenFormulas.v"]
 EXTRA_TARGETS = rc.EXTRA_TARGETS
 AREAS = rc.AREAS
 RULE = ("model tie (whole traces): Checker.iter_hashes() over FeedChecker / HashChecker -- every (hash found, recorded hash, size) "
